@@ -401,6 +401,16 @@ class Unit:
         ft = X.FnText(text)
         sig = ft.signature()
         body = ft.body() if ft.has_body else None
+        if 'R-refcell' in rules and body is not None:
+            # R-refcell: `let [mut] fork = self.shared_fork.borrow[_mut]();` is removed; `fork` becomes a
+            # parameter of the (hand-stated) signature given by sig=... (RefCell/Rc plumbing is not verified)
+            body2, n = sub_outside_comments(r'let\s+(mut\s+)?fork\s*=\s*self\s*\.\s*shared_fork\s*\.\s*borrow(_mut)?\s*\(\s*\)\s*;', '', body)
+            if n != 1:
+                raise LostAnchor('R-refcell: borrow statement not found exactly once in %s' % label)
+            body = body2
+            self.rules.hit('R-refcell')
+        if kv.get('sig'):
+            sig = kv['sig'] + '\n'
         if 'R-mutself' in rules and body is not None:
             sig, body = rule_mutself(sig, body, self.rules)
         if 'R-refmut' in rules and body is not None:
